@@ -441,6 +441,12 @@ func TestC13Variants(t *testing.T) {
 						continue
 					}
 					wire, err := sim.WireBlocks([]*nom.AccountBlock{v})
+					if err == nil && c.Weighted("var.inMomentum", 3, 1) == 1 {
+						// third route: the follower got the ORIGINAL block by honest gossip; a peer then delivers the momentum that
+						// confirms it with the variant in the block's place (the momentum's content names only the hash)
+						c13VariantInMomentum(c, h, b, blk, wire[0], kind, pool, next, refDump)
+						continue
+					}
 					viaRPC := err != nil || c.Weighted("var.route", 4, 1) == 1
 					n := h.W.CloneStopped(b, "Bv")
 					if viaRPC {
@@ -530,6 +536,14 @@ func TestC13Variants(t *testing.T) {
 func c13CanonicalCalldata(c *pbt.C, n *sim.Node) (checked int) {
 	l, err := sim.Scan(n)
 	if err == nil {
+		// whatever the node stores under a hash hashes to it
+		for _, chain := range l.Blocks {
+			for _, b := range chain {
+				if b.BlockType != nom.BlockTypeGenesisReceive && b.ComputeHash() != b.Hash {
+					c.Failf("C13/stored-block-does-not-hash-to-its-hash", "the node stores block %v/%d under hash %v; its stored content hashes to %v (data %x)", b.Address, b.Height, b.Hash, b.ComputeHash(), b.Data)
+				}
+			}
+		}
 		for _, s := range l.Sends {
 			if s.BlockType != nom.BlockTypeUserSend || !types.IsEmbeddedAddress(s.ToAddress) || len(s.Data) < 4 {
 				continue
@@ -574,6 +588,69 @@ func derefAll(vals []interface{}) []interface{} {
 		out[i] = v
 	}
 	return out
+}
+
+// c13VariantInMomentum: see the call site. Whatever the node answers to the forged momentum, what it holds under the
+// block's hash afterwards is the producer's bytes, it follows the producer's momentum and ends with the reference state.
+func c13VariantInMomentum(c *pbt.C, h *sim.Hist, b *sim.Node, blk, variant *nom.AccountBlock, kind string, pool []*nom.AccountBlock, next []*nom.DetailedMomentum, refDump string) {
+	n := h.W.CloneStopped(b, "Bm")
+	defer h.W.Drop(n)
+	for _, p := range pool {
+		if p.Address == blk.Address && p.Height <= blk.Height && p.BlockType != nom.BlockTypeContractSend {
+			if wp, err := sim.WireBlocks([]*nom.AccountBlock{p}); err == nil {
+				_ = n.Bridge.AddAccountBlocks(wp)
+			}
+		}
+	}
+	orig, _ := n.Chain.GetFrontierAccountStore(blk.Address).ByHash(blk.Hash)
+	if orig == nil {
+		return // the honest block itself did not reach the pool (its own predecessors are missing): nothing to displace
+	}
+	want, _ := orig.Serialize()
+	fm := sim.CopyDetailed(next[0])
+	replaced := false
+	for i, ab := range fm.AccountBlocks {
+		if ab.Hash == blk.Hash && ab.Address == blk.Address {
+			fm.AccountBlocks[i] = variant
+			replaced = true
+		}
+	}
+	if !replaced {
+		return
+	}
+	c.Checkpoint()
+	idx, ferr := n.Bridge.InsertChain([]*nom.DetailedMomentum{fm})
+	c.R.Count("variants_delivered_inside_the_confirming_momentum", 1)
+	what := fmt.Sprintf("variant %q of block %v/%d (type %d) inside the momentum that confirms it, the follower holding the original", kind, blk.Address, blk.Height, blk.BlockType)
+	c.Class(fmt.Sprintf("variant-in-momentum-%s", map[bool]string{true: "accepted", false: "refused"}[ferr == nil]))
+	if held, err := n.Chain.GetFrontierAccountStore(blk.Address).ByHash(blk.Hash); err == nil && held != nil {
+		got, _ := held.Serialize()
+		ref := want
+		if ferr == nil {
+			if pb, _ := h.A.Chain.GetFrontierMomentumStore().GetAccountBlockByHash(blk.Hash); pb != nil {
+				ref, _ = pb.Serialize()
+			}
+		}
+		if !bytes.Equal(got, ref) {
+			key := "C13/second-variant-stored/" + kind + "/in-momentum"
+			if strings.HasPrefix(kind, "changes-hash") && !types.IsEmbeddedAddress(blk.Address) {
+				key = "C13/second-variant-stored/user-block/ChangesHash"
+			}
+			c.Failf(key, "%s (answer: index %d, %v): the follower now holds other bytes under the block's hash than the block it had verified: %s", what, idx, ferr, firstDiff(normBlock(orig), normBlock(held)))
+		}
+	}
+	if _, err := n.Bridge.InsertChain(next); err != nil {
+		key := "C13/variant-blocks-follower/" + kind + "/in-momentum"
+		if strings.HasPrefix(kind, "changes-hash") && !types.IsEmbeddedAddress(blk.Address) {
+			key = "C13/variant/user-block/ChangesHash"
+		}
+		if c.Failf(key, "%s (answer: %v): afterwards the follower refuses the producer's momentum: %v", what, ferr, err) {
+			return
+		}
+	}
+	if d := n.Dump(); d != refDump {
+		c.Failf("C13/variant-changes-stored-bytes/"+kind+"/in-momentum", "%s: the follower stores different bytes than a node that never saw the variant: %s", what, firstDiff(refDump, d))
+	}
 }
 
 // ---- (c) native fuzz targets: arbitrary bytes into the three decoders --------------------
@@ -678,6 +755,7 @@ func TestC13Calldata(t *testing.T) {
 		h := sim.NewHist(c, spec, opts)
 		h.Intents = sim.DefaultIntents()
 		h.Recode = 2
+		h.RecodeExternal = 3
 		if bridgeWorld {
 			_ = sim.BridgeScript(h, c.Int("wraps", 0, 3), c.Int("unwraps", 0, 2))
 			_ = sim.LiquidityScript(h)
@@ -695,6 +773,14 @@ func TestC13Calldata(t *testing.T) {
 				}
 			}
 			h.Produce(c.Weighted("skip", 5, 1))
+		}
+		// an accepted block built outside the node is stored with the bytes it was delivered with
+		for _, d := range h.ExternalDelivered {
+			if st, err := h.A.Chain.GetFrontierMomentumStore().GetAccountBlockByHash(d.Hash); err == nil && st != nil {
+				if !bytes.Equal(st.Data, d.Data) || !bytes.Equal(st.Signature, d.Signature) {
+					c.Failf("C13/stored-differs-from-delivered", "block %v was delivered with data %x and is stored with data %x", d.Hash, d.Data, st.Data)
+				}
+			}
 		}
 		if n := c13CanonicalCalldata(c, h.A); n >= 5 {
 			c.NonTrivial()
